@@ -133,21 +133,23 @@ func runCase(kind, note string, d *desc, F []string, mk func() []*request) sexp.
 // the apifu route (see apifu.go)
 func runApifuCase(F []string, route string) sexp.Node {
 	subs := strings.HasSuffix(route, "+subscriptions")
-	proto := strings.TrimSuffix(route, "+subscriptions")
+	hook := strings.HasSuffix(route, "+init-hook")
+	proto := strings.TrimSuffix(strings.TrimSuffix(route, "+subscriptions"), "+init-hook")
 	ws := proto == "graphql-ws" || proto == "graphql-transport-ws"
 	d := apifuDesc(subs)
 	e := erase(d, F)
 	head := []sexp.Node{sexp.T("kind", sexp.Sym("apifu")), sexp.T("note", sexp.Str(route)), d.sexp(), sexp.T("features", strs(F)...),
 		sexp.T("all", strs(alphabet)...)}
-	on := subset([]string{"fa"}, F)
+	hasAll := func(...string) bool { return true }
+	hasF := func(req ...string) bool { return subset(req, F) }
 	all := graphql.NewFeatureSet(alphabet...)
 	logA, logB, logC := &calls{}, &calls{}, &calls{}
-	apiA, err := apifuAPI(true, false, subs, logA)
+	apiA, err := apifuAPI(hasAll, false, subs, logA)
 	if err != nil {
 		return sexp.T("case", append(head, sexp.T("accepted", sexp.Bool(false)))...)
 	}
 	head = append(head, sexp.T("accepted", sexp.Bool(true)), sexp.T("erased", e.sexp()))
-	apiB, err := apifuAPI(on, true, subs, logB)
+	apiB, err := apifuAPI(hasF, true, subs, logB)
 	if err != nil {
 		return sexp.T("case", append(head, sexp.T("erased-rejected", sexp.Str(err.Error())))...)
 	}
@@ -165,7 +167,17 @@ func runApifuCase(F []string, route string) sexp.Node {
 				laterA = &none
 			}
 		}
-		a.ws, b.ws = openWS(apiA, a.features, proto, laterA), openWS(apiB, b.features, proto, laterB)
+		// with the init hook: the request context grants nothing; the features come from the payload of
+		// connection_init (Config.HandleGraphQLWSInit stores them in the context it returns, Config.Features
+		// reads them there).  Two inits: the first grants the OTHER side's set, the second this side's —
+		// the connection must run with what the LATEST init granted
+		var initsA, initsB [][]string
+		featA, featB := a.features, b.features
+		if hook {
+			initsA, initsB = [][]string{alphabet, F}, [][]string{{}, alphabet}
+			featA, featB = graphql.NewFeatureSet(), graphql.NewFeatureSet()
+		}
+		a.ws, b.ws = openWS(apiA, featA, proto, laterA, initsA), openWS(apiB, featB, proto, laterB, initsB)
 		defer a.ws.close()
 		defer b.ws.close()
 	}
@@ -204,7 +216,10 @@ func runApifuCase(F []string, route string) sexp.Node {
 		}
 		hist := []sexp.Node{env(a.features)}
 		transport := "http"
-		if ws {
+		if ws && hook {
+			transport = "ws"
+			hist = []sexp.Node{env(graphql.NewFeatureSet()), sexp.T("init-with", strs(alphabet)...), sexp.T("init-with", strs(F)...)}
+		} else if ws {
 			transport = "ws"
 			hist = append(hist, sexp.T("init"))
 			if subs {
@@ -216,15 +231,16 @@ func runApifuCase(F []string, route string) sexp.Node {
 		}
 		head = append(head, sexp.T("plumbing", sexp.T("transport", sexp.Sym(transport)), sexp.T("history", hist...)))
 	}
-	if !on {
-		// the Config a developer writes without the gated connection does not mention PageInfo at all
-		apiC, err := apifuAPI(false, false, subs, logC)
+	{
+		// side c: the Config a developer writes without the elements F does not cover, with only its
+		// own AdditionalTypes — it does not mention PageInfo / DateTime when nothing left refers to them
+		apiC, err := apifuAPI(hasF, false, subs, logC)
 		if err != nil {
 			panic(err)
 		}
 		c := &side{api: apiC, features: all, log: logC}
 		if ws {
-			c.ws = openWS(apiC, all, proto, nil)
+			c.ws = openWS(apiC, all, proto, nil, nil)
 			defer c.ws.close()
 		}
 		o := c.run("{ __schema { types { name } } }", nil)
@@ -232,11 +248,15 @@ func runApifuCase(F []string, route string) sexp.Node {
 		sc, _ := o.data.get("__schema")
 		ts, _ := sc.get("types")
 		for _, t := range ts.vals {
-			reg = append(reg, t.str("name"))
+			if !strings.HasPrefix(t.str("name"), "__") {
+				reg = append(reg, t.str("name"))
+			}
 		}
 		sort.Strings(reg)
-		head = append(head, sexp.T("physical", sexp.T("names", strs(names)...), sexp.T("registered", strs(reg)...),
-			sexp.T("a", reqs[0].observe(a).List...), sexp.T("c", reqs[0].observe(c).List...)))
+		if len(reg) != len(e.Types) {
+			head = append(head, sexp.T("physical", sexp.T("names", strs(names)...), sexp.T("registered", strs(reg)...),
+				sexp.T("a", reqs[0].observe(a).List...), sexp.T("c", reqs[0].observe(c).List...)))
+		}
 	}
 	return sexp.T("case", head...)
 }
@@ -372,6 +392,13 @@ func main() {
 			F := F
 			h.Case(func(*rng.R) sexp.Node { return runApifuCase(F, "graphql-ws+subscriptions") })
 			h.Case(func(*rng.R) sexp.Node { return runApifuCase(F, "graphql-transport-ws+subscriptions") })
+		}
+		// 6. the features of a WebSocket connection granted by the connection_init payload through
+		// Config.HandleGraphQLWSInit, two inits in a row
+		for _, F := range subsetsOf([]string{"fa", "fb"}) {
+			F := F
+			h.Case(func(*rng.R) sexp.Node { return runApifuCase(F, "graphql-ws+init-hook") })
+			h.Case(func(*rng.R) sexp.Node { return runApifuCase(F, "graphql-transport-ws+init-hook") })
 		}
 	})
 }
